@@ -9,7 +9,7 @@ EXPLANATION = (
     "constants come only from check_convergence_almost, called only from Info::post_process under "
     "is_errored/MaxIterations/MaxTime with the six reduced tolerances position by position; (R4) rollback "
     "save/reset symmetry over the six reported scalars + all five iterate components; (R5) vector lengths from "
-    "the user's A; (R6) iterations written only by reset/save_scalars from the loop counter. NOT decided: "
+    "the user's A; (R6) iterations written only by reset/save_scalars from the loop counter; (R3p/R1n/R7) the shared predicate tables, NaN-objective rule and units premises are re-run under this id. NOT decided: "
     "agreement 'to rounding' of recomputed values.")
 ASSUMPTIONS = ['rustc MIR construction and trait resolution are correct']
 
